@@ -104,6 +104,8 @@ def oracle(seed, tier):
         if m is None:
             i += 1; continue
         if m[0] == "refuse":
+            if out[i].startswith("err no-world"):
+                i += 1; continue            # the generator produced a world the library refuses to construct: nothing to ask
             cases += 1
             if not out[i].startswith("err no-cross-section"):
                 viol.append({"what": "2-D query on a world without cross section was not refused", "world": nocross[m[1]][0], "world_json": nocross[m[1]][1], "cmd": lines[i], "answer": out[i][:200]})
